@@ -1,6 +1,7 @@
 package main
 
 import (
+	"regexp"
 	_ "embed"
 	"encoding/json"
 	"flag"
@@ -24,6 +25,8 @@ type Mutant struct {
 	Nth    int    `json:"nth,omitempty"` // 1-based occurrence when Old occurs several times (0 = must be unique)
 	Expect string `json:"expect"`        // substring of the obligation key that must become a violation
 	Note   string `json:"note,omitempty"`
+	All    bool   `json:"all,omitempty"` // replace every occurrence in the file
+	Re     bool   `json:"re,omitempty"`  // Old is a regular expression (implies All)
 }
 
 //go:embed mutants.json
@@ -51,6 +54,22 @@ func applyMutant(repo string, m Mutant) (map[string][]byte, string) {
 		return nil, "stale: cannot read " + m.File
 	}
 	s := string(b)
+	if m.Re {
+		re, err := regexp.Compile(m.Old)
+		if err != nil {
+			return nil, "broken regexp"
+		}
+		if !re.MatchString(s) {
+			return nil, "stale: pattern no longer matches"
+		}
+		return map[string][]byte{abs: []byte(re.ReplaceAllString(s, m.New))}, ""
+	}
+	if m.All {
+		if !strings.Contains(s, m.Old) {
+			return nil, "stale: anchor text no longer present"
+		}
+		return map[string][]byte{abs: []byte(strings.ReplaceAll(s, m.Old, m.New))}, ""
+	}
 	n := strings.Count(s, m.Old)
 	if n == 0 {
 		return nil, "stale: anchor text no longer present"
